@@ -209,6 +209,7 @@ DEFAULT_PROFILE = {
     "n_attrs": (3, 7),
     "allow_frozen": False,
     "allow_class_dnc": False,
+    "allow_parent_class_dnc": False,
     "allow_attr_dnc": True,
     "allow_key": True,
     "allow_sub": True,
@@ -336,7 +337,12 @@ def gen_class_spec(src, profile=None):
         host["key_pos"] = src.randint(0, len(attrs)) if src.chance(0.6) else 0
     if p["allow_frozen"] and src.chance(0.5):
         host["options"]["frozen"] = True
-    if p["allow_class_dnc"] and src.chance(0.1):
+    parent_only_dnc = bool(p.get("allow_parent_class_dnc")) and p["allow_sub"] and src.chance(0.1)
+    if parent_only_dnc:
+        # the parent is declared do_not_copy=True as a whole; a decorated subclass does not inherit that (the option is
+        # reset per decorated class), so the subclass copies like any other class -- only ITS instances are created
+        host["options"]["do_not_copy"] = True
+    elif p["allow_class_dnc"] and src.chance(0.1):
         host["options"]["do_not_copy"] = True
     elif p["allow_attr_dnc"] and src.chance(0.2) and names:
         host["options"]["do_not_copy"] = [src.choice(names)]
@@ -378,8 +384,10 @@ def gen_class_spec(src, profile=None):
         "host": host,
         "sub": None,
     }
-    if p["allow_sub"] and src.chance(p["p_sub"]):
-        skind = src.choice(["spec", "plain", "spec"])
+    if parent_only_dnc:
+        spec["only_roles"] = ["sub"]
+    if p["allow_sub"] and (src.chance(p["p_sub"]) or parent_only_dnc):
+        skind = src.choice(["spec", "plain", "spec"]) if not parent_only_dnc else "spec"
         sub = {"kind": skind, "redefault": [], "redeclare": [], "extra": []}
         cands = [a for a in attrs if not a.get("flags")]
         for a in src.sample(cands, min(len(cands), src.randint(0, 2))):
@@ -1030,6 +1038,8 @@ def materialise(spec, faults, name_suffix=""):
         if sub.get("own_new"):
             def sub_new(cls, *args, **kwargs):
                 new_log.append("sub:" + _nm(cls))
+                if sub["own_new"] == "direct":
+                    return object.__new__(cls)  # (does not go through the parents' __new__ at all)
                 return super(classes["sub"], cls).__new__(cls)
             sns["__new__"] = sub_new
         if sub.get("mixin_first"):
